@@ -126,12 +126,20 @@ class Scanner:
         self.pos += 1
         return defs.ArgumentToken(start, latex[start:self.pos], arg)
 
+    #   generate a single token with the complete error mark
+    #   - utils.latex_error() may split the mark near the end of the text
+    #   - start is a valid position, the token is pinned to it
+    #
+    def error_token(self, err, latex, start):
+        toks = utils.latex_error(err, start, latex, self.parms)
+        return defs.TextToken(start, ''.join(t.txt for t in toks),
+                                    pos_fix=True)
+
     #   scan \verb
     #
     def scan_verb(self, latex, start):
         def verb_err():
-            return utils.latex_error('bad \\verb argument',
-                                        start, latex, self.parms)[0]
+            return self.error_token('bad \\verb argument', latex, start)
         start_arg = start + len('\\verb')
         if start_arg >= self.max_pos:
             return verb_err()
@@ -157,8 +165,7 @@ class Scanner:
         pos += len('{verbatim}')
         end = latex.find('\\end{verbatim}', pos)
         if end < 0:
-            return utils.latex_error('missing end of verbatim',
-                                            start, latex, self.parms)[0]
+            return self.error_token('missing end of verbatim', latex, start)
         self.pos = end + len('\\end{verbatim}')
         return defs.VerbatimToken(pos, latex[pos:end], environ=True)
 
